@@ -2,7 +2,7 @@
 library copy $AITB_REPO, runs tools/check.py C14 --tier quick, prints the outcome, reverts the copy.
 Usage: python3 tools/mutations_c14.py [M1 M3 ...]      (FIX=1 applies fixes/C14-*.diff first, so that the known findings do not mask)"""
 import subprocess, os, sys, json
-REPO = os.environ.get('AITB_REPO', '/var/tmp/rp/c14b'); WT = os.path.dirname(os.path.dirname(os.path.abspath(__file__)))
+REPO = os.environ.get('AITB_REPO', '/var/tmp/rp/c14'); WT = os.path.dirname(os.path.dirname(os.path.abspath(__file__)))
 env = dict(os.environ, AITB_REPO=REPO)
 M = [
  ('H1 harmless: plusEqual(FactoredVector, BasisFunction) treats equal-size tags as "incoming bigger" (other merge branch, same values)',
@@ -114,6 +114,44 @@ M = [
  ('F16 (on the repaired tree) minusEqual reverse merge forgets to negate the incoming basis', 'src/Factored/Utils/FactoredVectorOps.cpp',
   """                    negated.values *= -1.0;""",
   """                    negated.values *= 1.0;"""),
+ # ---- round 3 (repaired tree; indirect helpers and the newly modelled consumers)
+ ('R1 factorSpacePartial/factorSpace wraparound test uses <= (an exactly fitting product is reported as SIZE_MAX)', 'src/Factored/Utils/Core.cpp',
+  """            if (std::numeric_limits<size_t>::max() / f < retval)""",
+  """            if (std::numeric_limits<size_t>::max() / f <= retval)"""),
+ ('R2 PartialFactorsEnumerator::reset() from a live state forgets the first entry (the library only ever resets a cleared enumerator)', 'src/Factored/Utils/Core.cpp',
+  """            std::fill(std::begin(factors_.second), std::end(factors_.second), 0);""",
+  """            std::fill(std::begin(factors_.second) + 1, std::end(factors_.second), 0);"""),
+ ('R3 bellmanBackup forgets the discount', 'src/Factored/MDP/Utils.cpp',
+  """v.values * (v.weights * m.getDiscount())""", """v.values * (v.weights * 1.0)"""),
+ ('R4 CooperativeModel::sampleSR looks the row up with the half-built next state', 'src/Factored/MDP/CooperativeModel.cpp',
+  """        State & s1 = *s1p;
+
+        for (size_t i = 0; i < S.size(); ++i) {
+            const auto j = graph_.getId(i, s, a);""",
+  """        State & s1 = *s1p;
+
+        for (size_t i = 0; i < S.size(); ++i) {
+            const auto j = graph_.getId(i, i ? s1 : s, a);"""),
+ ('R5 DDNGraph::push only refuses too FEW feature sets', 'src/Factored/Utils/BayesianNetwork.cpp',
+  """        if (parents.features.size() != factorSpacePartial(parents.agents, A))""",
+  """        if (parents.features.size() < factorSpacePartial(parents.agents, A))"""),
+ ('R6 (indirect, Utils/Probability.hpp) isProbability no longer refuses negative entries', 'include/AIToolbox/Utils/Probability.hpp',
+  """            const double value = static_cast<double>(in[i]);
+            if (value < 0.0) return false;
+            p += value;
+        }
+        if (checkDifferentSmall(p, 1.0))""",
+  """            const double value = static_cast<double>(in[i]);
+            p += value;
+        }
+        if (checkDifferentSmall(p, 1.0))"""),
+ ('R7 (indirect, Utils/Core.hpp) sequential_sorted_contains(v, elems) answers true when the scan of v ends early', 'include/AIToolbox/Utils/Core.hpp',
+  """            if (i == v.size() || v[i] > elems[j]) return false;""",
+  """            if (i == v.size()) return true;
+            if (v[i] > elems[j]) return false;"""),
+ ('R8 checkTag no longer reports duplicates', 'src/Factored/Utils/Core.cpp',
+  """            if (tagV == previousV)    return std::make_pair(TagErrors::Duplicates, t);""",
+  """            if (tagV == previousV && t > tag.size()) return std::make_pair(TagErrors::Duplicates, t);"""),
 ]
 sel = sys.argv[1:]
 fix = os.environ.get('FIX') == '1'
